@@ -5389,6 +5389,8 @@ class ProcessXor(Subconstruct):
             raise StringError("ProcessXor needs integer or bytes pad", path=path)
         if isinstance(pad, bytes) and len(pad) == 1:
             pad = byte2int(pad)
+        if isinstance(pad, int) and not 0 <= pad <= 255:
+            raise StringError("ProcessXor integer pad must be in range(256), found %r" % (pad,), path=path)
         offset = stream_tell(stream, path)
         data = stream_read_entire(stream, path)
         if isinstance(pad, int):
@@ -5406,6 +5408,8 @@ class ProcessXor(Subconstruct):
             raise StringError("ProcessXor needs integer or bytes pad", path=path)
         if isinstance(pad, bytes) and len(pad) == 1:
             pad = byte2int(pad)
+        if isinstance(pad, int) and not 0 <= pad <= 255:
+            raise StringError("ProcessXor integer pad must be in range(256), found %r" % (pad,), path=path)
         stream2 = io.BytesIO()
         buildret = self.subcon._build(obj, stream2, context, path)
         data = stream2.getvalue()
